@@ -22,6 +22,10 @@ FUNCTIONS = [
     "uxarray.grid.grid.Grid.face_lat",
     "uxarray.grid.grid.Grid.edge_lon",
     "uxarray.grid.grid.Grid.edge_lat",
+    _C + "_xyz_to_lonlat_rad@arrays",
+    _C + "_xyz_to_lonlat_deg@arrays",
+    _C + "_normalize_xyz@arrays",
+    _C + "_lonlat_rad_to_xyz@arrays",
 ]
 STANDINS = ["coords"]
 ASSUMPTIONS = [
